@@ -589,6 +589,20 @@ example : (removeStep 20000 ctx "W2" ["A2"]
       { st with pending := [("P1", ⟨"P1", false, [⟨"T4", 0, 0⟩], [⟨"X9", 5, .std⟩]⟩)], pendIns := [(("T4", 0), ["P1"])] }).map
     (fun o => (o.s.pending.length, o.s.pendIns.length, o.removedTx)) = some (0, 0, ["P1", "T4"]) := by decide
 
+/-- remove_pending_kept, hypotheses met on a store with two pending transactions (tests): P1 only spends W2's coin T4:0
+    and goes; P2 spends W2's coin T3:0 but pays W1 (not removable), keeps its record AND its spent mark, so that a
+    confirmed double spend of T3:0 still finds it -/
+def stP : Store :=
+  { st with pending := [("P1", ⟨"P1", false, [⟨"T4", 0, 0⟩], [⟨"X9", 5, .std⟩]⟩), ("P2", ⟨"P2", false, [⟨"T3", 0, 0⟩], [⟨"A1", 5, .std⟩]⟩)],
+            pendIns := [(("T4", 0), ["P1"]), (("T3", 0), ["P2"])] }
+example : Functional stP.pending := by
+  intro e e' he he' hk
+  simp [stP] at he he'
+  rcases he with rfl | rfl <;> rcases he' with rfl | rfl <;> first | rfl | (exfalso; revert hk; decide)
+example : stP.pending.map (fun x => removable ctx.own stP ["A2"] x.2) = [true, false] := by decide
+example : (removeStep 20000 ctx "W2" ["A2"] stP).map (fun o => (o.s.pending.map (·.1), o.s.pendIns)) =
+    some (["P2"], [(("T3", 0), ["P2"])]) := by decide
+
 /-- remove_progress / remove_resumes: with step size 1 the same removal needs two steps (tests) -/
 example : (removeStep 1 ctx "W2" ["A2"] st).map (fun o => (o.finish, left o.s ["A2"])) = some (false, 1) ∧ left st ["A2"] = 2 := by decide
 example : (match run 1 ctx "W2" ["A2"] 3 st with | .done s' => some (s'.credits.length, s'.status.length) | _ => none) = some (1, 1) := by decide
